@@ -25,7 +25,7 @@ CHECKS = {
          "Frames with identical alpha planes are merged on both sides before comparison; colour is not compared.", "3/C18"),
  "C14": ("exploration", "history monitor: random Muxer call sequences checked against a model of what was put in, an independent RIFF walker, the Demuxer, the second parser and libwebp",
          "Each accepted history's output is demuxed and compared field by field with the history (payload bytes, alpha, offsets/2*2, clamped durations, blend/dispose, loop, background, canvas, metadata); rejected histories must write nothing; histories include Assemble in the middle and twice, offsets and canvases at the 24-bit field limits and at 2^30 pixels, AddChunk with ids of its own, ALPH-prefixed lossless payloads, metadata at the 100 MiB limit and summing above 256 MiB; every fourth history hands its payloads over as adjacent sub-slices of one buffer.",
-         "Model of accepted input: durations clamped to [0,2^24-1], loop count to [0,65535], animated iff >1 frame or a positive duration. D11 (still with canvas != image) is a recorded known finding.", "3/C14"),
+         "Model of accepted input: durations clamped to [0,2^24-1], loop count to [0,65535], animated iff >1 frame, a positive duration, or a single frame that does not cover its canvas (only a one-frame animation can carry its rectangle; D11, repaired).", "3/C14"),
  "C16": ("exploration", "cross-view agreement monitor (Decode result as oracle for the header queries; five container views compared pairwise)",
          "For every still that Decode accepts the header queries must succeed and match the decoded image; GetFeatures, DecodeConfig, Demuxer, animation reader and the independent walker must agree on canvas, animation flag, frame count, loop count; corpus includes Muxer-assembled animations with sub-rectangle first frames and canvases beyond 16 bits, and hand-assembled animations of 4095..65537 frames around any frame-count limit (accepted by all views or by none).",
          "Hand-assembled variants that the strict walker flags are only compared among the views that accept them.", "3/C16"),
